@@ -190,13 +190,26 @@ func (vfs *BasePathFS) FromSlash(path string) string {
 // Getwd may return any one of them.
 func (vfs *BasePathFS) Getwd() (dir string, err error) {
 	dir, err = vfs.baseFS.Getwd()
-	if !strings.HasPrefix(dir, vfs.basePath) {
+	if !vfs.inBasePath(dir) {
 		// the current directory of the base file system is outside the base path
 		// (no Chdir through this file system yet) : the current directory is the root.
 		dir = vfs.basePath
 	}
 
 	return vfs.FromBasePath(dir), vfs.FromPathError(err)
+}
+
+// inBasePath returns true if path is the base path or a path below it :
+// "/base/path2" starts with "/base/path" but is not below it.
+func (vfs *BasePathFS) inBasePath(path string) bool {
+	if !strings.HasPrefix(path, vfs.basePath) {
+		return false
+	}
+
+	rest := path[len(vfs.basePath):]
+
+	return rest == "" || avfs.IsPathSeparator(vfs, rest[0]) ||
+		avfs.IsPathSeparator(vfs, vfs.basePath[len(vfs.basePath)-1])
 }
 
 // Glob returns the names of all files matching pattern or nil
